@@ -5,7 +5,7 @@ import ast
 from fractions import Fraction as F
 
 from . import map_rules as mr
-from .kernel_rules import run_kernel
+from .kernel_rules import run_kernel, run_kernel_paths
 
 EXPLANATION = "(R1) slab pre-selection of map(): dependence on cell size and dz (D4) and large-cell limit (D5) in thick mode; (R3/R5) map() interpreted over token layers with symbolic numpy values in thin, thick(nz given) and thick(nz derived) scenarios: each layer reduced along the depth axis of the kernel output (axis located by the symbolic kernel evaluation) with its OWN operation, values and unit scaled by the depth spacing exactly for thick sum/nansum, depth window [-dz/2, dz/2], spacing dz/nz with nz given or round(dz / mean pixel size), depth sample points = bin centres, caller's resolution dict untouched; kernel footprint along z; (R6) Layer component views keep the operation (shared with C19). The same Layer objects handed to two map() calls with different call-level operations are reduced by each call's own (R3). (R7) kernel containment and thread-private buffers (shared with C03). The output buffer of the kernel must be floating whatever the layers hold (no NaN in an integer buffer). Value tests inside the kernel (np.isnan of a cell value) become guard terms that the containment rule rejects."
 NOT_DECIDED = 'numerical quadrature error of the depth sum; floating-point rounding of the depth grid'
@@ -27,7 +27,7 @@ def r3(run, tree):
              "spacing exactly for thick sum/nansum; kernel depth window", "D7 fold of map() + D1 symbolic kernel shape", "", floor=4)
     fi = tree.func(MAP)
     try:
-        kfi, ev, env = run_kernel(tree, 3)
+        _, kfi, ev, env = run_kernel_paths(tree, 3)[0]
         out = env.get("out")
         shape = [repr(x) for x in out[1]]
         nz_pos = shape.index("grid_positions_in_original_basis.shape[0]")
